@@ -6,8 +6,8 @@ implementation returned (it shares no code with the Lean mirror and none with gi
 import copy
 import re
 
-IDENT = re.compile(r'^[a-zA-Z_]\w*$')
-MODULE = re.compile(r'^([a-zA-Z_]\w*\.)*[a-zA-Z_]\w*$')
+IDENT = re.compile(r'^[a-zA-Z_]\w*\Z')     # \Z, not $: a name does not end in a newline
+MODULE = re.compile(r'^([a-zA-Z_]\w*\.)*[a-zA-Z_]\w*\Z')
 REQ = {'req': 1}
 
 
